@@ -70,15 +70,18 @@ Proof. induction ns as [|n ns IH]; intros s; simpl; [reflexivity|]. apply IH. Qe
 
 Lemma fstep_exec s o : exists os, F.rs (fst (F.fstep s o)) = M.exec (F.rs s) os.
 Proof.
-  destruct o as [mp n nbs|t ok|mp ok1 ok2|mp|mp|n|n]; cbn [F.fstep].
+  destruct o as [mp n nbs|t ok|mp ok1 r|mp|mp|mp|n|n]; cbn [F.fstep].
   - exists (map M.RStart (n :: nbs)). cbn [fst F.rs]. apply starts_exec.
   - destruct (M.step (F.rs s) (M.RStep t ok)) as [r e] eqn:E. cbn [fst].
     assert (Hr : r = M.exec (F.rs s) [M.RStep t ok]) by (unfold M.exec; cbn [fold_left]; rewrite E; reflexivity).
     unfold F.after_ret. destruct e; try (exists [M.RStep t ok]; exact Hr).
     destruct (nth_error (F.roles s) t) as [[mp|]|]; try (exists [M.RStep t ok]; exact Hr).
     exists [M.RStep t ok; M.Done (length (M.uh (F.rs s)))]. cbn [F.rs]. rewrite Hr. reflexivity.
-  - exists []. destruct (F.lookup mp (F.mnts s)); [|reflexivity]. destruct (snd (M.step _ _)); reflexivity.
+  - destruct (F.lookup mp (F.mnts s)) as [u|]; [|exists []; reflexivity].
+    destruct (F.check_ev (F.rs s) u ok1); try (exists []; reflexivity);
+      (destruct (M.step (F.rs s) (M.Refresh u r)) as [r1 e] eqn:E; exists [M.Refresh u r]; unfold M.exec; cbn [fold_left fst F.rs]; rewrite E; reflexivity).
   - destruct (F.lookup mp (F.mnts s)) as [u|]; [exists [M.Close u]|exists []]; reflexivity.
+  - exists []. destruct (F.lookup mp (F.mnts s)); reflexivity.
   - exists []. destruct (F.lookup mp (F.mnts s)); reflexivity.
   - exists [M.ExpireL n]. reflexivity.
   - exists [M.ExpireB n]. reflexivity.
@@ -130,7 +133,7 @@ Qed.
 
 Lemma fstep_FI s o : FI s -> FI (fst (F.fstep s o)).
 Proof.
-  intros I. destruct o as [mp n nbs|t ok|mp ok1 ok2|mp|mp|n|n]; cbn [F.fstep].
+  intros I. destruct o as [mp n nbs|t ok|mp ok1 r|mp|mp|mp|n|n]; cbn [F.fstep].
   - cbn [fst]. apply (FI_same_uh s); [exact I| |tauto|apply (f_inj _ I)].
     rewrite starts_exec. assert (E : forall l s0, M.uh (M.exec s0 (map M.RStart l)) = M.uh s0).
     { induction l as [|a l IH]; intros s0; [reflexivity|]. change (M.exec s0 (map M.RStart (a :: l))) with (M.exec (fst (M.step s0 (M.RStart a))) (map M.RStart l)). rewrite IH. reflexivity. }
@@ -159,7 +162,14 @@ Proof.
         rewrite nth_upd_ne by (unfold u in *; lia). rewrite nth_error_app1 by exact Hold. exact Hh'.
       * constructor; cbn; [|apply (f_inj _ I)]. intros m u' Hin. destruct (f_held _ I m u' Hin) as [h' Hh']. exists h'.
         rewrite Happ. rewrite nth_error_app1; [exact Hh'|]. eapply nth_some_lt; eauto.
-  - destruct (F.lookup mp (F.mnts s)); [|exact I]. destruct (snd (M.step _ _)); exact I.
+  - destruct (F.lookup mp (F.mnts s)) as [u|]; [|exact I].
+    assert (Hr : forall e : M.ev, FI (fst (let '(r1, e0) := M.step (F.rs s) (M.Refresh u r) in (F.mkF r1 (F.mnts s) (F.roles s), e0)))).
+    { intros _. destruct (M.step (F.rs s) (M.Refresh u r)) as [r1 e0] eqn:E. cbn [fst].
+      apply (FI_same_uh s); [exact I| |tauto|apply (f_inj _ I)].
+      replace r1 with (fst (M.step (F.rs s) (M.Refresh u r))) by (rewrite E; reflexivity).
+      cbn [M.step]. destruct (nth_error (M.uh (F.rs s)) u) as [[h r0]|]; [|reflexivity]. destruct (M.layer_flags (F.rs s) h).
+      destruct (_ && _); [|reflexivity]. destruct r, (M.blob_of (F.rs s) h); reflexivity. }
+    destruct (F.check_ev (F.rs s) u ok1); try exact I; apply (Hr M.ENone).
   - destruct (F.lookup mp (F.mnts s)) as [u|] eqn:Hl; [|exact I]. cbn [fst]. apply lookup_in in Hl.
     constructor; cbn; [|apply unreg_nodup; apply (f_inj _ I)].
     intros m u' Hin. apply unreg_in in Hin. destruct Hin as [Hin Hne].
@@ -177,6 +187,7 @@ Proof.
       apply Hne. apply (Huniq _ Hn Hl Hin). }
     rewrite nth_upd_ne by exact Hu. exact Hh'.
   - destruct (F.lookup mp (F.mnts s)); exact I.
+  - destruct (F.lookup mp (F.mnts s)); exact I.
   - cbn [fst]. apply (FI_same_uh s); [exact I|cbn [M.step fst]; apply lc_do_uh|tauto|apply (f_inj _ I)].
   - cbn [fst]. apply (FI_same_uh s); [exact I|cbn [M.step fst]; apply bc_do_uh|tauto|apply (f_inj _ I)].
 Qed.
@@ -192,8 +203,8 @@ Lemma mounted_usable fos mp u : let s := F.fexec F.finit fos in
   F.lookup mp (F.mnts s) = Some u ->
   (exists h, nth_error (M.uh (F.rs s)) u = Some (h, false) /\ M.layer_flags (F.rs s) h = (false, false)) /\
   F.fstep s (F.FUse mp) = (s, M.EUse false false) /\
-  (forall ok2, F.fstep s (F.FCheck mp true ok2) = (s, M.ENone)) /\
-  F.fstep s (F.FCheck mp false true) = (s, M.ENone).
+  (forall r, F.fstep s (F.FCheck mp true r) = (s, M.ENone)) /\
+  snd (F.fstep s (F.FCheck mp false M.RfOk)) = M.ENone.
 Proof.
   intros s Hl. pose proof (fexec_FI fos _ FI_init) as I. fold s in I.
   destruct (freach fos) as [os Hos]. fold s in Hos.
@@ -201,7 +212,16 @@ Proof.
   assert (RI' : RInv (F.rs s)) by (rewrite Hos; apply reach_inv).
   destruct (held_usable (F.rs s) u h RI' Hh) as [Hf _].
   split; [exists h; split; assumption|].
-  cbn [F.fstep]. rewrite Hl. cbn [M.step]. rewrite Hh, Hf. cbn. repeat split; reflexivity.
+  cbn [F.fstep]. rewrite Hl. unfold F.check_ev. cbn [M.step]. rewrite Hh, Hf. cbn.
+  repeat split; try reflexivity. destruct (M.blob_of (F.rs s) h); reflexivity.
+Qed.
+
+(* a refused Refresh (resolution error, blob of another size) through Check leaves the filesystem state untouched *)
+Lemma check_refused_nop s mp ok1 r : r = M.RfErr \/ r = M.RfSize -> fst (F.fstep s (F.FCheck mp ok1 r)) = s.
+Proof.
+  intros Hr. cbn [F.fstep]. destruct (F.lookup mp (F.mnts s)) as [u|]; [|reflexivity].
+  destruct (F.check_ev (F.rs s) u ok1); try reflexivity;
+    (pose proof (refused_refresh_nop (F.rs s) u r Hr) as E; destruct (M.step (F.rs s) (M.Refresh u r)) as [r1 e]; cbn [fst] in *; subst r1; destruct s; reflexivity).
 Qed.
 
 (* ---------- the coarse steps of the harness are sequences of fsteps ---------- *)
